@@ -1,4 +1,5 @@
-import PPLV.Lattice.ProofsConvCGMain
+import PPLV.Lattice.ProofsConvCGComplete
+import PPLV.Lattice.ProofsConvCGTri
 import PPLV.Lattice.ProofsRedCgTri
 
 /-!
@@ -72,5 +73,46 @@ theorem conversionCgsToGens_sound_of_final (n : Nat) (source : List CRow) (dk : 
       ∀ x, Hom n dest (homog ((get (rowAt dest 0).e 0 : Int) : ℚ) x) → cgsSem n source x := by
   obtain ⟨h1, h2, h3, h4⟩ := cgHyps_of_final n source dk h
   exact ⟨conversionCgsToGens_cert n source dk hc h1 h2 h3 h4, conversionCgsToGens_sound n source dk hc h1 h2 h3 h4⟩
+
+theorem cwf_of_final (n : Nat) (source : List CRow) (dk : List Nat) (h : Final n source dk) : CWf n source := by
+  obtain ⟨p, mm, hinv, _⟩ := h
+  intro r hr
+  obtain ⟨i, hi, rfl⟩ := (gc_mem_iff_rowAt _ _).mp hr
+  exact hinv.wf i hi
+
+/-- **The conversion of a simplified congruence system is exact.** -/
+theorem conversionCgsToGens_correct_of_final (n : Nat) (source : List CRow) (dk : List Nat) (h : Final n source dk) :
+    let dest := conversionCgsToGens n source dk
+    GWf n dest ∧ upperTriangular n dest dk = true ∧
+      ∀ x, Hom n dest (homog ((get (rowAt dest 0).e 0 : Int) : ℚ) x) ↔ cgsSem n source x := by
+  obtain ⟨h1, h2, h3, h4⟩ := cgHyps_of_final n source dk h
+  have hc := cwf_of_final n source dk h
+  obtain ⟨a, b⟩ := conversionCgsToGens_correct n source dk hc h1 h2 h3 h4
+  exact ⟨a, conversionCgsToGens_triangular n source dk h1 h3 h4.kinds, b⟩
+
+/-- **`Grid::simplify` followed by `Grid::conversion`** (what `Grid::update_generators` does with a congruence system):
+    when `simplify` does not report emptiness, the generator system produced denotes the solution set of the
+    original congruence system. -/
+theorem simplify_conversionCgsToGens_correct (n : Nat) (rows : List CRow) (dk : List Nat) (hwf : CWf n rows) :
+    let r := simplifyCgs n rows dk
+    r.2.2 = false →
+      let dest := conversionCgsToGens n r.1 r.2.1
+      GWf n dest ∧ upperTriangular n dest r.2.1 = true ∧
+        ∀ x, Hom n dest (homog ((get (rowAt dest 0).e 0 : Int) : ℚ) x) ↔ cgsSem n rows x := by
+  intro r hf dest
+  have hfin := simplifyCgs_triangular n rows dk hwf hf
+  obtain ⟨a, b, c⟩ := conversionCgsToGens_correct_of_final n r.1 r.2.1 hfin
+  exact ⟨a, b, fun x => (c x).trans ((simplifyCgs_preserves n rows dk hwf).1 hf x)⟩
+
+/-- the hypothesis is satisfiable: the simplified form of `x ≡ 1 (mod 2)`, `x + y = 0`, `y ≡ 0 (mod 3)` (`exRows`,
+    `ProofsRedCgLoop.lean`) is `Final`; the conversion of it passes the certificate -/
+example :
+    let r := simplifyCgs 2 exRows []
+    Final 2 r.1 r.2.1 ∧ cgCertB 2 r.1 (conversionCgsToGens 2 r.1 r.2.1) = true :=
+  ⟨simplifyCgs_triangular 2 exRows [] (by
+      intro r hr
+      simp only [exRows, List.mem_cons, List.not_mem_nil, or_false] at hr
+      rcases hr with rfl | rfl | rfl <;> exact ⟨rfl, by decide⟩) (by decide +kernel),
+    by decide +kernel⟩
 
 end PPLV.Lattice.Red
